@@ -871,6 +871,24 @@ fn record(sink: &mut Sink, w: &World, scn_no: usize, args: &[ArgSpec], o: &Opts,
     if o.ffmt == 2 {
         tags.push("opt_f_conv".into());
     }
+    {
+        let nneg = filters.iter().filter(|f| f.enabled && f.kind == 1).count();
+        let npos = filters.iter().filter(|f| f.enabled && f.kind == 0).count();
+        if nneg >= 2 {
+            tags.push("filters_2plus_negative".into());
+            // some message matches one but not all of the negative filters
+            let negs: Vec<&Flt> = filters.iter().filter(|f| f.enabled && f.kind == 1).collect();
+            if pb.screen.iter().any(|x| { let m = &scn.msgs[x.1 as usize]; let c = negs.iter().filter(|f| f.verdict(m)).count(); c >= 1 && c < negs.len() }) {
+                tags.push("negatives_partly_matching".into());
+            }
+        }
+        if npos >= 2 {
+            tags.push("filters_2plus_positive".into());
+        }
+        if nneg >= 1 && npos >= 1 {
+            tags.push("filters_pos_and_neg".into());
+        }
+    }
     if !o.eac.is_empty() {
         tags.push(format!("opt_eac{}", o.eac.len().min(3)));
     }
@@ -1157,23 +1175,67 @@ fn gen_opts(rng: &mut Rng, scn: &Scn, n: usize, nlc: u32, lcs_ok: bool) -> Opts 
         }
         o.lcs = v;
     }
-    match rng.below(5) {
-        0 => {
+    match rng.below(6) {
+        0 | 1 => {
+            // DLF file: filter SETS with mixed kinds
             o.ffmt = 1;
-            let k = rng.range(0, 3);
-            for _ in 0..k {
-                let kind = match rng.below(6) {
-                    0 | 1 => 1,
-                    2 => 2,
-                    _ => 0,
-                };
-                let mut f = gen_flt(rng, necu, kind);
-                f.ecu.truncate(1); // DLF: a literal ECU id only
-                f.enabled = !rng.chance(1, 5);
-                o.ffilters.push(f);
+            // distinct single-criterion filters so that several negatives (positives) have different literal criteria
+            let mut crit: Vec<Flt> = vec![];
+            for a in 1..=3u8 {
+                crit.push(Flt { kind: 0, enabled: true, ecu: vec![], apid: Some(a), ctid: None });
+                crit.push(Flt { kind: 0, enabled: true, ecu: vec![], apid: None, ctid: Some(a) });
             }
+            for e in 1..=necu as u8 {
+                crit.push(Flt { kind: 0, enabled: true, ecu: vec![e], apid: None, ctid: None });
+            }
+            shuffle(rng, &mut crit);
+            let mut take = |rng: &mut Rng, kind: u8, crit: &mut Vec<Flt>| -> Flt {
+                let mut f = if rng.chance(2, 3) && !crit.is_empty() { crit.pop().unwrap() } else { gen_flt(rng, necu, kind) };
+                f.kind = kind;
+                f.ecu.truncate(1); // DLF: a literal ECU id only
+                f
+            };
+            match rng.below(5) {
+                0 => {
+                    // several negatives (each removes something else), sometimes a positive as well
+                    for _ in 0..rng.range(2, 4) {
+                        o.ffilters.push(take(rng, 1, &mut crit));
+                    }
+                    if rng.chance(1, 3) {
+                        o.ffilters.push(take(rng, 0, &mut crit));
+                    }
+                }
+                1 => {
+                    // several positives
+                    for _ in 0..rng.range(2, 4) {
+                        o.ffilters.push(take(rng, 0, &mut crit));
+                    }
+                }
+                2 | 3 => {
+                    // positives and negatives together, markers and disabled ones in between
+                    for _ in 0..rng.range(2, 4) {
+                        let kind = match rng.below(7) {
+                            0 | 1 | 2 => 1,
+                            3 => 2,
+                            _ => 0,
+                        };
+                        let mut f = take(rng, kind, &mut crit);
+                        f.enabled = !rng.chance(1, 5);
+                        o.ffilters.push(f);
+                    }
+                }
+                _ => {
+                    for _ in 0..rng.range(0, 2) {
+                        let kind = rng.below(3) as u8;
+                        let mut f = take(rng, kind, &mut crit);
+                        f.enabled = !rng.chance(1, 4);
+                        o.ffilters.push(f);
+                    }
+                }
+            }
+            shuffle(rng, &mut o.ffilters);
         }
-        1 => {
+        2 => {
             o.ffmt = 2;
             let k = rng.range(0, 3);
             for _ in 0..k {
@@ -1358,6 +1420,57 @@ fn gen_multi(rng: &mut Rng) -> (Scn, Vec<Vec<ArgSpec>>) {
     }
 }
 
+/// two ECUs, APIDs AP01 / AP02 / A3 and messages without extended header; option sets around "several negative
+/// filters with different criteria" (a message matching ONE of them must go)
+fn corpus_filters() -> (Scn, Vec<Opts>) {
+    let mut msgs = vec![];
+    for k in 0..12u32 {
+        let ecu = (k % 2) as u8 + 1;
+        let ext = k % 4 != 3;
+        msgs.push(M {
+            ecu,
+            rt: RHO + k as u64 * 100_000,
+            ts: (k / 2) * 2_000,
+            mcnt: k as u8,
+            ext,
+            apid: if ext { (k % 3) as u8 + 1 } else { 0 },
+            ctid: if ext { (k / 3 % 3) as u8 + 1 } else { 0 },
+            boot: 0,
+            fill: 0,
+            creq: false,
+            has_ts: true,
+        });
+    }
+    let f = |v: Vec<u32>| FileSpec { garbage: vec![vec![]; v.len() + 1], msgs: v, missing: false, pad: 0 };
+    let scn = Scn { files: vec![f((0..12).filter(|k| k % 2 == 0).collect()), f((0..12).filter(|k| k % 2 == 1).collect())], msgs };
+    let fl = |kind: u8, enabled: bool, ecu: Vec<u8>, apid: Option<u8>, ctid: Option<u8>| Flt { kind, enabled, ecu, apid, ctid };
+    let dlf = |fs: Vec<Flt>, style: u8, ofile: bool| {
+        let mut o = Opts::none(style);
+        o.ffmt = 1;
+        o.ffilters = fs;
+        o.ofile = ofile;
+        o
+    };
+    let mut opts = vec![
+        dlf(vec![fl(1, true, vec![], Some(1), None), fl(1, true, vec![], Some(2), None)], 3, false),
+        dlf(vec![fl(1, true, vec![], Some(1), None), fl(1, true, vec![], Some(2), None), fl(1, true, vec![], Some(3), None)], 1, true),
+        dlf(vec![fl(1, true, vec![], Some(1), None), fl(1, true, vec![], None, Some(2)), fl(1, true, vec![2], None, None)], 2, false),
+        dlf(vec![fl(1, true, vec![], Some(1), None), fl(0, true, vec![1], None, None), fl(1, true, vec![], None, Some(3))], 3, true),
+        dlf(vec![fl(1, true, vec![], Some(2), None), fl(1, false, vec![], Some(1), None), fl(2, true, vec![], Some(3), None), fl(1, true, vec![], None, Some(1))], 3, false),
+        dlf(vec![fl(0, true, vec![], Some(1), None), fl(0, true, vec![], Some(2), None), fl(1, true, vec![], None, Some(2)), fl(1, true, vec![1], None, None)], 0, true),
+    ];
+    // the same with --eac expressions on top (one filter set)
+    let mut o = opts[0].clone();
+    o.eac = vec![fl(0, true, vec![1], None, None)];
+    opts.push(o);
+    let mut o = opts[2].clone();
+    o.eac = vec![fl(0, true, vec![1, 2], None, Some(1)), fl(0, true, vec![], Some(3), None)];
+    o.b = Some(2);
+    o.e = Some(10);
+    opts.push(o);
+    (scn, opts)
+}
+
 fn perms4() -> Vec<Vec<usize>> {
     let mut out = vec![];
     for a in 0..4 {
@@ -1430,6 +1543,16 @@ fn main() {
                 o.b = Some(1);
             }
             plans.push(Plan { scn: no, args: l.iter().map(|k| (*k, false)).collect(), opts: o, tags: vec!["corpus_odd_files"] });
+        }
+    }
+    {
+        let (scn, opts) = corpus_filters();
+        let no = w.scns.len();
+        scn.write_files(&w.root.join(format!("s{}", no)));
+        w.scns.push(scn);
+        for (i, o) in opts.into_iter().enumerate() {
+            let args: Vec<ArgSpec> = if i % 2 == 0 { vec![(0, false), (1, false)] } else { vec![(1, false), (0, false)] };
+            plans.push(Plan { scn: no, args, opts: o, tags: vec!["corpus_filters"] });
         }
     }
     {
